@@ -115,6 +115,9 @@ def _complete_one(var, kind, data, env):
         elif kind == 'arcsin':
             v = ir.evaluate([data], env)[0]
             env[var.val] = math.asin(min(1.0, max(-1.0, v)))
+        elif kind == 'recip':
+            v = ir.evaluate([data], env)[0]
+            env[var.val] = 1.0 / v if v != 0 else 0.0
         elif kind == 'atan2':
             y, x = ir.evaluate(list(data), env)
             env[var.val] = math.atan2(y, x)
@@ -209,11 +212,11 @@ def close(a, b, tol=1e-9):
 
 
 # ---------------------------------------------------------------- path helpers
-def run_paths(fn, assumptions=(), max_paths=100000, np_facade=None, extra_globals=None, prefix=''):
+def run_paths(fn, assumptions=(), max_paths=100000, np_facade=None, extra_globals=None, prefix='', feas_timeout_ms=10000):
     """explore fn() under the facade; returns (paths, stats)"""
     assumptions = [a.n if isinstance(a, SB) else a for a in assumptions]
     with facade.patched(np_facade, extra_globals):
-        return explore.explore(fn, assumptions, max_paths=max_paths, prefix=prefix)
+        return explore.explore(fn, assumptions, max_paths=max_paths, prefix=prefix, timeout_ms=feas_timeout_ms)
 
 
 def payload_cx(model, arrs, **kw):
